@@ -645,3 +645,22 @@ Lemma b58_encode_equations :
      b58_encode (a ++ r) =
      match b58_encode r with Ok x => Ok (enc_k 11 (be2n a) ++ x) | Err e => Err e | Panic => Panic end).
 Proof. split; [exact b58_encode_nil|split; [exact b58_encode_tail|exact b58_encode_full]]. Qed.
+
+Lemma b58_encode_length : forall b s, b58_encode b = Ok s ->
+  length s = (11 * (length b / 8) + sz (length b mod 8))%nat.
+Proof.
+  intros b. pattern b. apply (chunk_ind 8); [lia| |].
+  - intros t Ht s Hs. destruct t as [|x t']; [injection Hs as <-; reflexivity|].
+    set (t := x :: t') in *. assert (Hl : (0 < length t < 8)%nat) by (subst t; cbn [length] in *; lia).
+    rewrite b58_encode_tail in Hs by lia. injection Hs as <-. rewrite enc_k_length.
+    rewrite Nat.div_small, Nat.mod_small by lia. subst t. cbn [length]. lia.
+  - intros a r Ha IH s Hs. rewrite b58_encode_full in Hs by assumption.
+    destruct (b58_encode r) as [x|e|] eqn:Er; try discriminate.
+    assert (Es : s = enc_k 11 (be2n a) ++ x) by congruence. subst s. clear Hs.
+    rewrite app_length, enc_k_length, (IH x eq_refl), app_length, Ha.
+    replace ((8 + length r) mod 8)%nat with (length r mod 8)%nat
+      by (rewrite Nat.add_comm; change 8%nat with (1 * 8)%nat at 2; now rewrite Nat.mod_add).
+    replace ((8 + length r) / 8)%nat with (S (length r / 8))
+      by (rewrite Nat.add_comm; change 8%nat with (1 * 8)%nat at 2; rewrite Nat.div_add by lia; lia).
+    lia.
+Qed.
